@@ -45,6 +45,17 @@ why = {
  'C15-m9': 'a fast path parses plain numbers with ParseFloat, which also accepts nan/inf: which texts count as numbers is value-level',
  'C16-m10': 'keys skips entries tagged !!merge while to_entries does not: value-level disagreement between two operators',
  'C19-m10': 'only the first object of a CSV array is checked for nested values: the removed validation was value-level',
+ 'C01-m12': 'isEquals treats a null on the left as equal only when both sides are null, so `null == "n*"` falls through to the glob matcher: which values compare equal is value-level',
+ 'C04-m13': 'the merge descent skips sequences by tag (`!!seq`) instead of by kind: for a custom-tagged sequence the elements are appended and also assigned by position; a comparison of one attribute instead of another, value-level',
+ 'C04-m14': 'the `n` flag also overwrites scalars whose text is empty: a disjunct added to a value-level guard',
+ 'C06-m13': 'UnmarshalYAML registers the anchor of a container after its children have been decoded, so a nested re-definition of the same name loses to the outer one: an ordering fact between two statements of one function; A4 only demands that the registration is unconditional',
+ 'C09-m14': 'the bracket counter of string interpolation is decremented before it is tested and never reset: arithmetic on a run-time counter',
+ 'C10-m14': '`null + x` returns a plain copy of x instead of a copy placed at the position of the null: which constructor makes the result is not a shape any rule demands for calculations (their results are placed by crossFunction only when they replace an operand)',
+ 'C12-m14': 'the front-matter appendix is re-read with bufio.Scanner and joined with "\\n" (CRLF, a missing final newline and lines over 64 KiB change): the contract of a library reader, value-level',
+ 'C13-m14': 'the dotted index form no longer follows an alias whose target is not a mapping: a kind test added to a guard, value-level',
+ 'C14-m14': 'comments of the properties writer are encoded as ISO-8859-1 instead of UTF-8: a constant of a third-party API',
+ 'C15-m13': 'sort_keys lower-cases keys both for ordering and as the bucket index, so keys that differ only in case collapse: a string transformation on run-time keys',
+ 'C18-m13': 'the TOML decoder keeps its root map across Init calls (allocated only when nil): the field holds a pointer whose target Decode mutates, while S4 only tracks fields that Decode stores into',
  'C15-m8': 'parseInt64 takes a sign off before the prefix tests and multiplies it back (-0x8000000000000000 overflows, "-" + hex now parses): arithmetic on run-time values. It used to be counted as detected through C11-P4, but that alarm was for the wrong reason — `numberString[1:]` under `HasPrefix(numberString, "-")` is safe and is now proved by the flow-based length facts',
  'C04-m11': 'with `*d` an empty right-hand sequence is routed to plain assignment instead of the positional merge: an extra disjunct in a value-level case distinction of applyAssignment; which operand shapes take which route is not a shape of the code',
  'C06-m11': 'isTruthyNode compares the boolean text through a lower-case map instead of EqualFold: case folding of scalar text is value-level (the pinned tree itself compares `node.Value != "false"` case-sensitively in the printer, so no sibling agreement exists to check against)',
